@@ -19,7 +19,7 @@ ASSUMPTIONS = [
     "connect_async_requests, connect_interval, group_path and depth are under contract",
 ]
 NOT_COVERED = ["World.connect's own argument handling (string vs tuple attribute pairs, the entity-level checks before connect_one) is not under contract", "'a rejected attribute pair leaves no data-flow behind' is proved per connect_one call; connect() with several pairs of which a later one is rejected keeps the earlier ones (as the statement allows: per pair)"]
-LEVEL_TEXT = 'connect_one raises ScenarioError IFF (source attribute not an output) or (destination attribute not an input) or (time-shifted / weak into a non-trigger input without initial data) or (weak without a common non-root group), and then has changed nothing; on success exactly the specified table entries are written (delay = connect_interval of the two groups, minimum per pair, pulled vs pushed, trigger edge iff trigger input, initial data placement, nothing else). group_path / connect_interval / depth: exact results over the ghost group tree for arbitrary depth; distinct groups are distinct objects (SimGroup identity).'
+LEVEL_TEXT = 'connect_one raises ScenarioError IFF (source attribute not an output) or (destination attribute not an input) or (time-shifted / weak into a non-trigger input without initial data) or (weak without a common non-root group), and then has changed nothing; on success exactly the specified table entries are written (delay = connect_interval of the two groups, minimum per pair, pulled vs pushed, trigger edge iff trigger input, initial data placement, nothing else). group_path / connect_interval / depth: exact results over the ghost group tree for arbitrary depth; distinct groups are distinct objects (SimGroup identity). Entity creation (ModelMock.create / _make_entities: every entity, also a child of another model, carries the model description of its own type) by a BOUNDED stand-in.'
 DESIGN_REF = "DESIGN.md section 8 (C11)"
 LEVEL_NOTE = 'Proved for arbitrary group trees and table contents (4 shape variants x all paths of the real connect_one). Trusted: pyvc encoder incl. the lazy-container model, C12 set contracts, z3/cvc5. Fixed through this check: F2 (1eac4d8).'
 TECHNIQUE = 'contract-based deductive verification (AST->z3 VCs on the real functions; group tree as ghost functions with induction lemmas; lazily initialised containers with mutation log for connect_one)'
